@@ -242,38 +242,46 @@ func CheckMain(prop, tier string) int {
 	var relaxIDs []string
 	var regress []string // replay paths of fixed findings that fail again
 	knownNotes := map[string]string{}
-	for _, f := range ff.Findings {
-		if f.Property != prop {
-			continue
-		}
-		path := filepath.Join(vdir, f.Witness)
-		rf, err := ReadReplay(path)
-		if err != nil {
-			fmt.Fprintf(os.Stderr, "finding %s: %v\n", f.ID, err)
-			return 2
-		}
-		env := NewEnv(NewStats(), map[string]bool{}, rf.Scenario.Seed)
-		v := SafeExec(w, rf.Scenario, env)
-		if v != nil && strings.HasPrefix(v.Oracle, "HARNESS_") {
-			fmt.Fprintf(os.Stderr, "finding %s witness: %s\n", f.ID, v)
-			return 2
-		}
-		switch f.Status {
-		case "known":
-			if v != nil {
-				fmt.Printf("KNOWN-FINDING: property=%s %s: %s\n", prop, f.ID, f.What)
-				relax[f.ID] = true
-				relaxIDs = append(relaxIDs, f.ID)
-				knownNotes[f.ID] = "witness still fails: " + v.Oracle
-			} else {
-				knownNotes[f.ID] = "witness no longer fails; strict model in force"
+	// known findings first: their witnesses decide which narrow relaxations are in force;
+	// then the witnesses of fixed findings, which must pass under exactly those relaxations
+	for pass := 0; pass < 2; pass++ {
+		for _, f := range ff.Findings {
+			if f.Property != prop || (pass == 0) != (f.Status == "known") {
+				continue
 			}
-		case "fixed":
-			if v != nil {
-				fmt.Printf("fixed finding %s has returned: %s\n", f.ID, v)
-				regress = append(regress, path)
-			} else {
-				knownNotes[f.ID] = "fixed; witness passes"
+			path := filepath.Join(vdir, f.Witness)
+			rf, err := ReadReplay(path)
+			if err != nil {
+				fmt.Fprintf(os.Stderr, "finding %s: %v\n", f.ID, err)
+				return 2
+			}
+			rl := map[string]bool{}
+			if pass == 1 {
+				rl = relax
+			}
+			env := NewEnv(NewStats(), rl, rf.Scenario.Seed)
+			v := SafeExec(w, rf.Scenario, env)
+			if v != nil && strings.HasPrefix(v.Oracle, "HARNESS_") {
+				fmt.Fprintf(os.Stderr, "finding %s witness: %s\n", f.ID, v)
+				return 2
+			}
+			switch f.Status {
+			case "known":
+				if v != nil {
+					fmt.Printf("KNOWN-FINDING: property=%s %s: %s\n", prop, f.ID, f.What)
+					relax[f.ID] = true
+					relaxIDs = append(relaxIDs, f.ID)
+					knownNotes[f.ID] = "witness still fails: " + v.Oracle
+				} else {
+					knownNotes[f.ID] = "witness no longer fails; strict model in force"
+				}
+			case "fixed":
+				if v != nil {
+					fmt.Printf("fixed finding %s has returned: %s\n", f.ID, v)
+					regress = append(regress, path)
+				} else {
+					knownNotes[f.ID] = "fixed; witness passes"
+				}
 			}
 		}
 	}
@@ -511,4 +519,17 @@ func writeEvidence(w World, tier string, base uint64, st *Stats, t0 time.Time, n
 		return err
 	}
 	return os.WriteFile(filepath.Join(dir, w.ID()+".json"), b, 0o644)
+}
+
+// ShowMain prints the scenario of one run.
+func ShowMain(prop, tier string, run uint64) int {
+	w, ok := Worlds[prop]
+	if !ok {
+		return 2
+	}
+	sc := GenScenario(w, baseSeed(), tier, run)
+	for _, l := range sc.Readable() {
+		fmt.Println(l)
+	}
+	return 0
 }
